@@ -268,8 +268,13 @@ def filter_args(func, ignore_lst, args=(), kwargs=dict()):
         # include self, we need to fetch it from the class method, i.e
         # func.__func__
         class_method_sig = inspect.signature(func.__func__)
-        self_name = next(iter(class_method_sig.parameters))
+        self_param = next(iter(class_method_sig.parameters.values()))
+        self_name = self_param.name
         arg_names = [self_name] + arg_names
+        if self_param.kind is self_param.POSITIONAL_ONLY:
+            # A keyword spelled like a positional-only 'self' is an ordinary
+            # extra keyword argument.
+            arg_posonlyargs.append(self_name)
     # XXX: Maybe I need an inspect.isbuiltin to detect C-level methods, such
     # as on ndarrays.
 
